@@ -256,6 +256,7 @@ func (e *Exec) externalEnv(fr *Frame, st State, fn *ssa.Function, args []Val, po
 		ch := e.newChan(&st, "after")
 		st = st.setGhost(gkey("period", ch), d)
 		st = st.setGhost("lastafter.d", d)
+		st = st.setGhost("lastafter.d#ch", ch)
 		st = e.ghostInc(st, "nafter")
 		return []Outcome{{st: st, ret: Val{ch}}}, true
 	case "time.AfterFunc":
@@ -578,6 +579,8 @@ func (e *Exec) newChan(st *State, what string) *Term {
 	s2, a := e.alloc(*st, c.Const(64, 1), what)
 	s2 = s2.setGhost(gkey("closed", a), c.False)
 	s2 = s2.setGhost(gkey("nsent", a), c.Const(64, 0))
+	s2 = s2.setGhost(gkey("nrecv", a), c.Const(64, 0))
+	s2 = s2.setGhost(gkey("nrecvc", a), c.Const(64, 0))
 	e.freshGhost[a.id] = true
 	*st = s2
 	return a
